@@ -22,18 +22,21 @@ inductive Outcome
 
 def stripSpaces (s : String) : String := String.ofList (s.toList.filter (· != ' '))
 
+/-- the grammar run on `key`, starting from the scratch contents `sc0`: the tree if the whole string parses, and
+    the scratch contents afterwards (parse actions only ever add; nothing is rolled back, also on failure) -/
+def runOn (sc0 : Sc) (key : String) : Option T × Sc :=
+  match lexAux (key.toList.length + 1) key.toList with
+  | none => (none, sc0)
+  | some ts =>
+    match qExpr (20 * ts.length + 20) ts sc0 with
+    | (some (t, []), sc) => (some t, sc)
+    | (_, sc) => (none, sc)
+
 /-- `raw_parse(key)`: the grammar runs with the parser object's *current* scratch sets (parse actions only ever
     add to them); whatever happens, `finally: self.reset_storage()` rebinds fresh empty sets. -/
 def rawParse (st : St) (key : String) : St × Option Expr :=
-  let cs := key.toList
-  let res : Option Expr :=
-    match lexAux (cs.length + 1) cs with
-    | none => none
-    | some ts =>
-      match qExpr (20 * ts.length + 20) ts st.scratch with
-      | (some (t, []), sc) => some (t, sc)
-      | _ => none
-  ({ st with scratch := [] }, res)
+  let run := runOn st.scratch key
+  ({ st with scratch := [] }, run.1.map (fun t => (t, run.2)))
 
 /-- `MathParser.parse(expression)` -/
 def parse (st : St) (s : String) : St × Outcome :=
